@@ -305,6 +305,21 @@ pub fn observe(c: &Case, p: &Params, sink: &mut Sink) -> Observed {
         }
     }
 
+    // the same bytes must reach a sink that takes only a few bytes per write() call
+    {
+        let mut cw = crate::common::ChunkWriter::new(1 + written.len() % 3);
+        let w2 = res_of(guarded(|| xot.write(node, &mut cw)));
+        if let (Res::Ok(()), Res::Ok(())) = (&w, &w2) {
+            if cw.data != buf {
+                ser_oracle::fail(sink, "C16", "C16:write-loses-bytes-on-short-writing-sink", &format!("Xot::write into a sink accepting {} byte(s) per call delivered {} of {} bytes", cw.max, cw.data.len(), buf.len()), c, &Params::plain());
+            } else {
+                sink.stat("oracle.C16.short-writing-sink-equal");
+            }
+        } else if w.kind() != w2.kind() {
+            ser_oracle::fail(sink, "C16", "C16:write-outcome-depends-on-sink", &format!("Vec sink: {}, chunked sink: {}", w.kind(), w2.kind()), c, &Params::plain());
+        }
+    }
+
     let only_tokens = Params { indent: None, decl: None, doctype: None, ..p.clone() };
     let token_string = res_of(guarded(|| xot.serialize_xml_string(only_tokens.xml_params(c.vocab), node)));
     sink.emit(format!("ser xml_string {} {}", only_tokens.wire(), tree_wire), token_string.show(|s| format!("ok {}", enc(s))));
@@ -317,6 +332,19 @@ pub fn observe(c: &Case, p: &Params, sink: &mut Sink) -> Observed {
     let w = res_of(guarded(|| xot.serialize_xml_write(p.xml_params(c.vocab), node, &mut buf)));
     let written = String::from_utf8_lossy(&buf).to_string();
     sink.emit(format!("ser xml_write {} {}", p.wire(), tree_wire), format!("{} {}", w.show(|_| "ok".to_string()), enc(&written)));
+    {
+        let mut cw = crate::common::ChunkWriter::new(1 + buf.len() % 4);
+        let w2 = res_of(guarded(|| xot.serialize_xml_write(p.xml_params(c.vocab), node, &mut cw)));
+        if let (Res::Ok(()), Res::Ok(())) = (&w, &w2) {
+            if cw.data != buf {
+                ser_oracle::fail(sink, "C16", "C16:write-loses-bytes-on-short-writing-sink", &format!("serialize_xml_write into a sink accepting {} byte(s) per call delivered {} of {} bytes", cw.max, cw.data.len(), buf.len()), c, p);
+            } else {
+                sink.stat("oracle.C16.short-writing-sink-equal");
+            }
+        } else if w.kind() != w2.kind() {
+            ser_oracle::fail(sink, "C16", "C16:write-outcome-depends-on-sink", &format!("Vec sink: {}, chunked sink: {}", w.kind(), w2.kind()), c, p);
+        }
+    }
 
     for (k, r) in [("outputs", outputs.kind()), ("tokens", tokens.kind()), ("to_string", to_string.kind()), ("xml_string", xml_string.kind())] {
         sink.stat(&format!("resp.{}.{}", k, r));
